@@ -157,7 +157,31 @@ def batch(pid, tier, master_seed, n_runs, workers, wall_cap_s, chunk=8):
             for rec in donef.result():
                 _merge(agg, rec)
     agg["wall_s"] = time.time() - t0
+    _sweep_private_dirs()
     return agg
+
+
+def _sweep_private_dirs():
+    """Workers of the seed farm are ended by the executor without running their atexit hooks: remove the private scratch
+    directories (dsim-<pid>-*) of processes that no longer exist; directories of live processes (this one, the workers of a
+    check running beside this one) are left alone."""
+    import glob
+    import shutil
+    import tempfile
+
+    for d in glob.glob(os.path.join(tempfile.gettempdir(), "dsim-*-*")):
+        try:
+            pid = int(os.path.basename(d).split("-")[1])
+        except (IndexError, ValueError):
+            continue
+        if pid == os.getpid():
+            continue
+        try:
+            os.kill(pid, 0)
+        except ProcessLookupError:
+            shutil.rmtree(d, ignore_errors=True)
+        except OSError:
+            pass
 
 
 def _merge(agg, rec):
